@@ -278,6 +278,29 @@ def bounded_membership_and_addressing(ctx):
         # only unguarded plain locals are substituted
         if id(st) in top and isinstance(st, ast.Assign) and len(st.targets) == 1 and isinstance(st.targets[0], ast.Name) and st.targets[0].id not in params:
             b.exec_stmt(st)
+    # None bounds (nan after the float conversion) become -inf in the lower row and +inf in the upper row: each replacement
+    # selects the row it writes with that row's own nan mask
+    cb = T.Builder()
+    nanfix = []
+    for st in f.node.body:
+        if isinstance(st, ast.Assign) and len(st.targets) == 1 and isinstance(st.targets[0], ast.Subscript):
+            tg = T.simp(cb.t(st.targets[0]))
+            if tg[0] == 'sub' and tg[2][0] == 'call' and T.show(tg[2][1]).endswith('isnan'):
+                nanfix.append((st, tg[1], tg[2][2][0] if tg[2][2] else None, T.simp(cb.t(st.value))))
+        elif isinstance(st, ast.Assign) and all(isinstance(x, (ast.Name, ast.Tuple)) for x in st.targets) and not any(
+                isinstance(x, ast.Name) and x.id in params for tg_ in st.targets for x in ast.walk(tg_)):
+            cb.exec_stmt(st)
+    ctx.need(len(nanfix) == 2, 'bounded: expected two None-to-infinity replacements, found %d' % len(nanfix))
+    B = ('name', 'bounds')
+    rows = {}
+    for st, row, maskrow, val in nanfix:
+        ctx.check(row == maskrow, 'bounded#none-mask', 'row[isnan(row)] = ...: the mask of the row that is written',
+                  'bounded replaces the nan entries of %s selected by the nan mask of %s: a None bound in one row is not converted (the coordinate comes out nan)'
+                  % (T.show(row)[:30], T.show(maskrow)[:30] if maskrow else None), f, st)
+        rows[row] = val
+    minus_inf = T.simp(T.term(ast.parse('-inf', mode='eval').body))
+    ctx.check(rows.get(('sub', B, T.num(0))) == minus_inf and rows.get(('sub', B, T.num(1))) == ('name', 'inf'), 'bounded#none-values', 'None lower bound -> -inf, None upper bound -> inf',
+              'bounded converts missing bounds to %s' % {T.show(k): T.show(v) for k, v in rows.items()}, f, nanfix[0][0])
     ctx.need(copied is not None, 'bounded: seq is never rebound to a copy')
     ctx.need(at_first is not None, 'bounded: no out-of-bounds index set `at`')
     st0, at0 = at_first
